@@ -251,7 +251,9 @@ func (cv *c14Cover) has(s string) bool {
 	return true
 }
 
-var c14Ligs = []string{"ffi", "fl", "fi", "ff", "ffl", "office", "waffle", "fjord", "AVATAR", "To. We, Ty"}
+// ligature and kerning triggers, and a run of consecutive code points which
+// crosses a xxFF/xx00 boundary (ToUnicode bfrange compression)
+var c14Ligs = []string{"ffi", "fl", "fi", "ff", "ffl", "office", "waffle", "fjord", "AVATAR", "To. We, Ty", "\u00fe\u00ff\u0100\u0101"}
 
 // c14Text draws a text from the runes the font covers.
 func c14Text(rng *kit.Rand, cv *c14Cover) string {
@@ -331,7 +333,6 @@ type c14Font struct {
 	reject map[c14Pair]struct{} // pairs the font refused
 	forced map[glyph.ID]string  // OneText fonts: the overriding text of a glyph, used for every occurrence
 	shown  int
-	first  bool // the font which decides the evidence kind of the document
 }
 
 type c14Show struct {
@@ -339,7 +340,7 @@ type c14Show struct {
 	glyphs []c14Glyph
 	how    string
 	rises  bool // the text rise changes inside the sequence
-	opFrom int // operators [opFrom,opTo) of the page stream belong to this call
+	opFrom int  // operators [opFrom,opTo) of the page stream belong to this call
 	opTo   int
 }
 
@@ -863,6 +864,10 @@ func (d *c14Doc) readBack(data []byte) {
 					d.fail("raw/font-dict/"+f.spec.Kind, "object %s (%s): %v", ref, f.spec.Name, err)
 					return
 				}
+				if len(raw.tuOverflow) > 0 {
+					d.fail("raw-tounicode/bfrange-last-byte-overflow/"+f.spec.Kind, "object %s (%s): the ToUnicode CMap has bfrange entries whose destination's last byte is incremented beyond 255: %s",
+						ref, f.spec.Name, strings.Join(raw.tuOverflow, ", "))
+				}
 				rf = &c14ReadFont{E: E, D: D, raw: raw}
 				fontCache[ref] = rf
 				c.R.Count("fonts_extracted", 1)
@@ -1093,7 +1098,7 @@ func (d *c14Doc) checkShow(pageNo int, sh *c14Show, ops []c14Op, fontAt []pdf.Na
 						pageNo, f.spec.Name, g.gid, g.code, g.text, rt)
 					return
 				}
-			} else if via == "tounicode" {
+			} else if via == "tounicode" && len(rf.raw.tuOverflow) == 0 {
 				d.fail("harness/raw-tounicode-parse", "%s code %q: the library finds a ToUnicode entry, the harness's parser does not", f.spec.Name, g.code)
 				return
 			}
@@ -1120,7 +1125,6 @@ func (d *c14Doc) checkShow(pageNo int, sh *c14Show, ops []c14Op, fontAt []pdf.Na
 	c.R.Count("glyphs_read_back/"+kind, int64(gi))
 }
 
-
 // ---------------------------------------------------------------------------
 // independent reading of the raw font dictionary (ISO 32000-1 9.6.2.1, 9.6.5,
 // 9.7.4.3, 9.10.3): widths and ToUnicode entries without the library's font
@@ -1129,6 +1133,10 @@ func (d *c14Doc) checkShow(pageNo int, sh *c14Show, ops []c14Op, fontAt []pdf.Na
 type c14Raw struct {
 	width func(code []byte) (float64, bool) // em; false: not stated in the dictionary (standard font) or not decodable here
 	toUni map[string]string                 // code bytes -> text, nil if the font has no ToUnicode CMap
+	// bfrange sections whose single destination string would have its last
+	// byte incremented beyond 255 ("the result of mapping is undefined",
+	// ISO 32000-1 9.10.3); their codes are left out of toUni
+	tuOverflow []string
 }
 
 func c14Num(cur pdf.Cursor, obj pdf.Object) (float64, bool) {
@@ -1283,7 +1291,7 @@ func c14ReadRaw(r pdf.Getter, cur pdf.Cursor, ref pdf.Reference) (*c14Raw, error
 		if err != nil {
 			return nil, err
 		}
-		raw.toUni, err = c14ParseToUnicode(body)
+		raw.toUni, raw.tuOverflow, err = c14ParseToUnicode(body)
 		if err != nil {
 			return nil, fmt.Errorf("ToUnicode CMap: %v", err)
 		}
@@ -1292,7 +1300,7 @@ func c14ReadRaw(r pdf.Getter, cur pdf.Cursor, ref pdf.Reference) (*c14Raw, error
 }
 
 // c14ParseToUnicode reads the bfchar and bfrange sections of a ToUnicode CMap.
-func c14ParseToUnicode(body []byte) (map[string]string, error) {
+func c14ParseToUnicode(body []byte) (map[string]string, []string, error) {
 	// tokens: <hex>, [, ], words
 	type tok struct {
 		kind byte // 'h' hex string, '[' , ']' , 'w' word
@@ -1327,7 +1335,7 @@ func c14ParseToUnicode(body []byte) (map[string]string, error) {
 					nib = append(nib, c-'A'+10)
 				case c == ' ' || c == '\n' || c == '\r' || c == '\t':
 				default:
-					return nil, fmt.Errorf("bad hex digit %q", c)
+					return nil, nil, fmt.Errorf("bad hex digit %q", c)
 				}
 				j++
 			}
@@ -1387,6 +1395,7 @@ func c14ParseToUnicode(body []byte) (map[string]string, error) {
 		return string(utf16.Decode(u)), nil
 	}
 	res := map[string]string{}
+	var overflow []string
 	for i := 0; i < len(toks); i++ {
 		if toks[i].kind != 'w' {
 			continue
@@ -1396,34 +1405,34 @@ func c14ParseToUnicode(body []byte) (map[string]string, error) {
 			i++
 			for i+1 < len(toks) && toks[i].kind == 'h' {
 				if toks[i+1].kind != 'h' {
-					return nil, fmt.Errorf("bfchar: destination is not a string")
+					return nil, nil, fmt.Errorf("bfchar: destination is not a string")
 				}
 				t, err := dec(toks[i+1].hex)
 				if err != nil {
-					return nil, err
+					return nil, nil, err
 				}
 				res[string(toks[i].hex)] = t
 				i += 2
 			}
 			if i >= len(toks) || toks[i].word != "endbfchar" {
-				return nil, fmt.Errorf("bfchar section not closed")
+				return nil, nil, fmt.Errorf("bfchar section not closed")
 			}
 		case "beginbfrange":
 			i++
 			for i+2 < len(toks) && toks[i].kind == 'h' {
 				lo, hi := toks[i].hex, toks[i+1].hex
 				if toks[i+1].kind != 'h' || len(lo) != len(hi) || len(lo) == 0 {
-					return nil, fmt.Errorf("bfrange: bad range")
+					return nil, nil, fmt.Errorf("bfrange: bad range")
 				}
 				n := 0
 				for k := range lo {
 					if k < len(lo)-1 && lo[k] != hi[k] {
-						return nil, fmt.Errorf("bfrange %x-%x differs before the last byte", lo, hi)
+						return nil, nil, fmt.Errorf("bfrange %x-%x differs before the last byte", lo, hi)
 					}
 				}
 				n = int(hi[len(hi)-1]) - int(lo[len(lo)-1]) + 1
 				if n < 1 {
-					return nil, fmt.Errorf("bfrange %x-%x is empty", lo, hi)
+					return nil, nil, fmt.Errorf("bfrange %x-%x is empty", lo, hi)
 				}
 				code := func(k int) string {
 					c := append([]byte{}, lo...)
@@ -1434,17 +1443,20 @@ func c14ParseToUnicode(body []byte) (map[string]string, error) {
 				if toks[i].kind == 'h' {
 					base := toks[i].hex
 					if len(base) < 2 {
-						return nil, fmt.Errorf("bfrange: short destination")
+						return nil, nil, fmt.Errorf("bfrange: short destination")
+					}
+					if int(base[len(base)-1])+n-1 > 255 {
+						overflow = append(overflow, fmt.Sprintf("<%x> <%x> <%x>", lo, hi, base))
 					}
 					for k := 0; k < n; k++ {
 						b := append([]byte{}, base...)
 						if int(b[len(b)-1])+k > 255 {
-							return nil, fmt.Errorf("bfrange %x-%x: destination %x overflows its last byte", lo, hi, base)
+							break // undefined
 						}
 						b[len(b)-1] += byte(k)
 						t, err := dec(b)
 						if err != nil {
-							return nil, err
+							return nil, nil, err
 						}
 						res[code(k)] = t
 					}
@@ -1455,26 +1467,26 @@ func c14ParseToUnicode(body []byte) (map[string]string, error) {
 					for i < len(toks) && toks[i].kind == 'h' {
 						t, err := dec(toks[i].hex)
 						if err != nil {
-							return nil, err
+							return nil, nil, err
 						}
 						res[code(k)] = t
 						k++
 						i++
 					}
 					if i >= len(toks) || toks[i].kind != ']' || k != n {
-						return nil, fmt.Errorf("bfrange %x-%x: array has %d elements", lo, hi, k)
+						return nil, nil, fmt.Errorf("bfrange %x-%x: array has %d elements", lo, hi, k)
 					}
 					i++
 				} else {
-					return nil, fmt.Errorf("bfrange: bad destination")
+					return nil, nil, fmt.Errorf("bfrange: bad destination")
 				}
 			}
 			if i >= len(toks) || toks[i].word != "endbfrange" {
-				return nil, fmt.Errorf("bfrange section not closed")
+				return nil, nil, fmt.Errorf("bfrange section not closed")
 			}
 		}
 	}
-	return res, nil
+	return res, overflow, nil
 }
 
 // ---------------------------------------------------------------------------
